@@ -25,7 +25,8 @@ RULE = ("per scenario {first call; second function with identical bytes already 
         "crossing the limit is cut short, the next one fails with EFBIG) at every size class of the files the "
         "scenario writes; afterwards three fresh processes call the function and a second function producing "
         "byte-identical results; non-trivial = distinct (scenario, operation, variant, prefix) fault points at "
-        "which the fault was observed to fire")
+        "which the fault was observed to fire"
+        '; scenarios include an array result larger than the memory cache that the caller keeps')
 ASSUMPTIONS = ["a crash is os._exit at the failpoint (no Python-level cleanup runs); durability of completed writes "
                "is the file system's business", "faults are injected into mutating operations only",
                "bounded recovery: the first call after faults stop may recompute, the third must be served"]
